@@ -142,9 +142,9 @@ pub enum VKind {
 pub enum Value {
     Bool(bool),
     /// all unsigned integer kinds (incl. Usize)
-    U(u128),
+    U(#[serde(with = "as_dec_string")] u128),
     /// all signed integer kinds (incl. Isize)
-    I(i128),
+    I(#[serde(with = "as_dec_string")] i128),
     /// bit pattern
     F32(u32),
     /// bit pattern
@@ -164,6 +164,20 @@ pub enum Value {
     Variant(usize, Box<Value>),
     /// DisplayStr pieces
     Pieces(Vec<String>),
+}
+
+/// 128-bit integers as decimal strings (serde_json cannot hold them as numbers)
+mod as_dec_string {
+    use serde::{Deserialize, Deserializer, Serializer};
+    use std::fmt::Display;
+    use std::str::FromStr;
+    pub fn serialize<T: Display, S: Serializer>(v: &T, s: S) -> Result<S::Ok, S::Error> {
+        s.collect_str(v)
+    }
+    pub fn deserialize<'de, T: FromStr, D: Deserializer<'de>>(d: D) -> Result<T, D::Error> {
+        let s = String::deserialize(d)?;
+        s.parse().map_err(|_| serde::de::Error::custom("bad integer"))
+    }
 }
 
 impl Shape {
